@@ -21,7 +21,7 @@ var postHooks map[reflect.Type]func(g *gen, v reflect.Value)
 
 func init() {
 	hooks = map[reflect.Type]hook{
-		reflect.TypeFor[kmip.RequestBatchItem](): func(g *gen, v reflect.Value, _ int, _ bool) { g.requestItem(v, g.anyOp()) },
+		reflect.TypeFor[kmip.RequestBatchItem]():  func(g *gen, v reflect.Value, _ int, _ bool) { g.requestItem(v, g.anyOp()) },
 		reflect.TypeFor[kmip.ResponseBatchItem](): func(g *gen, v reflect.Value, _ int, _ bool) { g.responseItem(v, g.anyOp()) },
 		reflect.TypeFor[kmip.Credential]():        func(g *gen, v reflect.Value, _ int, _ bool) { g.credential(v) },
 		reflect.TypeFor[kmip.CredentialValue]():   func(g *gen, v reflect.Value, _ int, _ bool) { g.credentialValue(v, g.credType()) },
